@@ -6,6 +6,7 @@
 from jaqalpaq.error import JaqalError
 from jaqalpaq.core.algorithm.visitor import Visitor
 from jaqalpaq.core import circuitbuilder
+from jaqalpaq.core.parameter import Parameter
 
 
 def fill_in_map(circuit):
@@ -93,6 +94,10 @@ class MapFiller(Visitor):
 
     def visit_NamedQubit(self, qubit):
         """Map this to a fundamental register and index and return it."""
+        if _depends_on_parameter(qubit):
+            # Which qubit this is cannot be known before the macro is
+            # expanded; leave the reference as it is.
+            return qubit
         reg, index = qubit.resolve_qubit()
         return reg[index]
 
@@ -126,3 +131,15 @@ class MapFiller(Visitor):
             gate_block,
         ]
         return sexpr
+
+
+def _depends_on_parameter(obj):
+    """Return whether resolving this qubit needs the value of a macro
+    parameter, either as its index or somewhere along its alias chain."""
+    while obj is not None:
+        if isinstance(obj, Parameter):
+            return True
+        if isinstance(getattr(obj, "alias_index", None), Parameter):
+            return True
+        obj = getattr(obj, "alias_from", None)
+    return False
